@@ -15,7 +15,7 @@ func c17Shapes(quick bool) []Shape {
 	var sh []Shape
 	maxOps := 2
 	if !quick {
-		maxOps = 3
+		maxOps = 4
 	}
 	mk := func(name string, paths []string, inFunc bool) Shape {
 		return Shape{Name: name, Prog: func(c *gosym.Ctx) *Program {
@@ -102,7 +102,7 @@ func c17Shapes(quick bool) []Shape {
 
 func CheckC17(r *Run) int {
 	return checkShapes(r, c17Shapes(r.Tier == "quick"), eqOpts{Target: "bash", CheckHazards: true, CompareFiles: true, ByCharClass: true}, 20000,
-		"histories of 1..2 (quick) / 1..3 (thorough) operations write/append/read/exists over two paths, top level and inside a function; first content = 1..2 symbolic bytes over printable ASCII + newline/tab, second content one neutral byte; the resulting file system and the printed reads are compared with a line-store model",
+		"histories of 1..2 (quick) / 1..4 (thorough) operations write/append/read/exists over two paths, top level and inside a function; first content = 1..2 symbolic bytes over printable ASCII + newline/tab, second content one neutral byte; the resulting file system and the printed reads are compared with a line-store model",
 		"paths are concrete spellings (a.txt, b.txt, 'my file.txt'); read of a missing file is excluded")
 }
 
@@ -152,7 +152,7 @@ func c18Shapes(quick bool) []Shape {
 	}
 	maxArgs := 2
 	if !quick {
-		maxArgs = 4
+		maxArgs = 5
 	}
 	argList := func(c *gosym.Ctx, v gosym.Str, n int) []Expr {
 		// the value under test sits at a symbolic position among n arguments, literal or via a variable
@@ -244,7 +244,7 @@ func c18Shapes(quick bool) []Shape {
 
 func CheckC18(r *Run) int {
 	return checkShapes(r, c18Shapes(r.Tier == "quick"), eqOpts{Target: "bash", CheckHazards: true, ByCharClass: true}, 20000,
-		"programs are probe scripts that print their argument vector framed by <> and their standard input; 0..2 (quick) / 0..4 (thorough) arguments, the value under test (0..2 symbolic bytes over printable ASCII + tab) at a symbolic position, as a literal or via a variable; pipelines of 2..3 stages; exit statuses 0, 3, 200",
+		"programs are probe scripts that print their argument vector framed by <> and their standard input; 0..2 (quick) / 0..5 (thorough) arguments, the value under test (0..2 symbolic bytes over printable ASCII + tab) at a symbolic position, as a literal or via a variable; pipelines of 2..3 stages; exit statuses 0, 3, 200",
 		"Bash only: the Batch counterpart (_ach through cmd /V:ON) is not applicable (no cmd.exe)")
 }
 
